@@ -460,6 +460,22 @@ def run(chk):
                                              f'source is interned, the same text parsed from a file, a message or built at run time is not), so the test is true in unit tests '
                                              f'and false on data - compare with == / !=')
                                     break
+        # ---- M9: a one-shot iterator kept in a module-level or class-level name: a generator expression, map / filter / zip / iter / reversed /
+        #      enumerate object stored once at import time is exhausted by its first use, every later use sees it empty -------------------------------
+        ONE_SHOT = {'map', 'filter', 'zip', 'iter', 'reversed', 'enumerate'}
+
+        def _one_shot(v):
+            return isinstance(v, ast.GeneratorExp) or (isinstance(v, ast.Call) and isinstance(v.func, ast.Name) and v.func.id in ONE_SHOT)
+        holders = [(n_, v_, None) for n_, v_ in mod.constants.items() if _one_shot(v_)]
+        for cname_, ci_ in mod.classes.items():
+            holders += [(n_, v_, ci_) for n_, v_ in ci_.assigns.items() if _one_shot(v_) and not ci_.is_enum]
+        for n_, v_, ci_ in holders:
+            users = [f'{c.name}.{fn.name}' if c is not None else fn.name for m, c, fn in repo.all_functions() if m is mod and any(
+                (isinstance(x, ast.Name) and x.id == n_ and ci_ is None) or (isinstance(x, ast.Attribute) and x.attr == n_ and ci_ is not None) for x in ast.walk(fn))]
+            if users:
+                chk.fail(rule, repo.where(mod, v_), f'{rel}:{n_}' if ci_ is None else f'{ci_.name}.{n_}', f'one-shot iterator kept in `{n_}`',
+                         f'`{n_} = {ast.unparse(v_)[:60]}` is an iterator created once at import time and used in {users[:3]}: the first membership test or loop consumes it '
+                         f'(up to the item found), every later use sees what is left - the second call of the same function gives a different answer')
         # ---- M3: mutable default arguments mutated in the body ------------------------------------------------------------------
         for m, c, fn in repo.all_functions():
             if m is not mod:
